@@ -49,7 +49,7 @@ def batchStep (s : BatchSt) (line : String) : BatchSt × String :=
     | none => (s, "bad-op")
     | some k =>
       match wbNew s.d k (1000000 + 1000 * s.made) with
-      | none => (s, "panic")
+      | none => ({ s with wb := none }, "panic")
       | some (d, w) => ({ s with d := d, wb := some w, made := s.made + 1 }, "ok")
   | ["wb-set", k, v] =>
     match fromHex k, fromHex v with
